@@ -1,6 +1,7 @@
 package main
 
 import (
+	"encoding/json"
 	"bytes"
 	"encoding/gob"
 	"fmt"
@@ -276,6 +277,13 @@ func runC03(env *Env) {
 		}
 		cases[i] = c
 	}
+	for _, raw := range corpusCases(env, "C03") {
+		c := &C03Case{}
+		if json.Unmarshal(raw, c) == nil {
+			cases = append([]*C03Case{c}, cases...)
+		}
+	}
+	n = len(cases)
 	wvlib.ParallelDo(n, env.Workers, func(i int) {
 		c03One(env, cases[i])
 		if i < 3 {
